@@ -28,7 +28,7 @@ for p in props:
         'evidence_file': '/verif/evidence/%s.json' % pid,
         'replay_cmd_template': './check %s --replay {path}' % pid,
         'engine': 'pbsym',
-        'technique': re.search(r"^TECHNIQUE = '(.*)'$", src, re.M).group(1) if re.search(r"^TECHNIQUE = '(.*)'$", src, re.M) else TECH,
+        'technique': re.search(r"^TECHNIQUE = '(.*)'$", src, re.M).group(1).replace("\\'", "'") if re.search(r"^TECHNIQUE = '(.*)'$", src, re.M) else TECH,
         'level_claimed': {'category': 'model_checking',
                           'text': 'Bounded, solver-decided: CrossHair executes the repository\'s own functions symbolically and z3 '
                                   'exhausts every path within the bounds written into the evidence file (CONFIRMED for every shard), '
